@@ -13,10 +13,11 @@
       permutation of the entry list; the [k]-th invocation is made with invocation count [k]) and
       the result holds exactly the entries for which it returned [true].
     [retain]'s predicate is modelled as [f : nat -> pfx -> V -> option bool] (argument = number of
-    earlier invocations, [None] = the closure panics).  [C10_retain] is for every pure, total
-    predicate; [C10_retain_any_outcome] for every predicate whose verdict, WHEN it returns, does not
-    depend on the invocation count, panicking or not (then: a partial call log, and exactly the
-    entries that were called and rejected are gone).
+    earlier invocations, so the closure may be stateful in its invocation count; [None] = the
+    closure panics).  [C10_retain_all_predicates] is for EVERY such [f], no hypothesis;
+    [C10_retain_total] specialises it to closures that never panic, [C10_retain] to pure total
+    ones (verdict = a function of the entry), [C10_retain_any_outcome] to verdicts independent of
+    the count, panicking or not.
     Proofs: Lookup2.v, MutTrav.v, Mutate.v, Retain.v, IterExtra.v. *)
 From Coq Require Import List NArith Sorted Permutation Lia Bool.
 From PT Require Import Lookup Lookup2 MutTrav Mutate Retain Refine IterExtra.
@@ -184,6 +185,57 @@ Proof.
   intros Hp. destruct (Pdone Hp) as [A [B _]]. split; [exact A | exact B].
 Qed.
 
+(** EVERY predicate — verdicts may depend on the invocation count, any invocation may panic.
+    There is a verdict [g] per entry such that: the [k]-th logged invocation was made with count [k]
+    on a distinct stored entry and returned [g] of it; exactly the logged entries that were
+    rejected are gone, every other entry is unchanged; if no invocation panicked, every stored
+    entry was passed to exactly one invocation (the log is a duplicate-free permutation of the
+    entry list) and the result is the [filter] by the verdicts; if one panicked, it did so on a
+    stored entry not yet logged, at count [length calls]. *)
+Theorem C10_retain_all_predicates (f : nat -> pfx -> V -> option bool)
+        (m m' : pmap pfx V) (panicked : bool) (calls : list (pfx * V)) :
+  wfm w V (root m) ->
+  t_retain V f m = (m', panicked, calls) ->
+  exists g : pfx -> V -> bool,
+    (forall k e, nth_error calls k = Some e -> f k (fst e) (snd e) = Some (g (fst e) (snd e))) /\
+    wfm w V (root m') /\ incl calls (entries (root m)) /\ NoDup calls /\
+    (forall e, In e (entries (root m')) <->
+               In e (entries (root m)) /\ ~ (In e calls /\ g (fst e) (snd e) = false)) /\
+    (panicked = false ->
+       entries (root m') = filter (fun e => g (fst e) (snd e)) (entries (root m)) /\
+       Permutation calls (entries (root m))) /\
+    (panicked = true ->
+       exists e, In e (entries (root m)) /\ ~ In e calls /\ f (length calls) (fst e) (snd e) = None).
+Proof. exact (retain_any_predicate pfx V (kbits w) (okp w) f m m' panicked calls). Qed.
+
+(** every predicate that never panics, stateful or not: exactly one invocation per stored entry,
+    and an entry survives iff THE invocation made on it returned [true] *)
+Theorem C10_retain_total (f : nat -> pfx -> V -> option bool)
+        (m m' : pmap pfx V) (panicked : bool) (calls : list (pfx * V)) :
+  wfm w V (root m) ->
+  (forall n p x, f n p x <> None) ->
+  t_retain V f m = (m', panicked, calls) ->
+  panicked = false /\ wfm w V (root m') /\
+  Permutation calls (entries (root m)) /\ NoDup calls /\
+  (forall e, In e (entries (root m')) <->
+             exists k, nth_error calls k = Some e /\ f k (fst e) (snd e) = Some true).
+Proof.
+  intros Hwf Htot E.
+  destruct (C10_retain_all_predicates f m m' panicked calls Hwf E)
+    as [g [Pans [W [_ [Pnd [Pkept [Pdone Ppan]]]]]]].
+  assert (Hp : panicked = false).
+  { destruct panicked; [|reflexivity]. exfalso. destruct (Ppan eq_refl) as [e [_ [_ N]]]. exact (Htot _ _ _ N). }
+  destruct (Pdone Hp) as [_ Pperm].
+  split; [exact Hp|]. split; [exact W|]. split; [exact Pperm|]. split; [exact Pnd|].
+  intros e. rewrite (Pkept e). split.
+  - intros [Hin Hk]. assert (Hc : In e calls) by (eapply Permutation_in; [apply Permutation_sym; exact Pperm | exact Hin]).
+    destruct (In_nth_error _ _ Hc) as [k Hn]. exists k. split; [exact Hn|]. rewrite (Pans k e Hn).
+    destruct (g (fst e) (snd e)) eqn:G; [reflexivity|]. exfalso. apply Hk. split; [exact Hc | reflexivity].
+  - intros [k [Hn Hv]]. pose proof (nth_error_In _ _ Hn) as Hc.
+    split; [eapply Permutation_in; [exact Pperm | exact Hc]|].
+    intros [_ G]. rewrite (Pans k e Hn), G in Hv. discriminate Hv.
+Qed.
+
 (** whatever the closure does (any [f], no hypothesis at all), the map stays well-formed *)
 Theorem C10_retain_wf (f : nat -> pfx -> V -> option bool) (m m' : pmap pfx V) (panicked : bool)
         (calls : list (pfx * V)) :
@@ -230,7 +282,13 @@ Example C10_example :
   entries (root (fst (fst (t_retain nat f m)))) = [(mkpfx 0 0, 0); (mkpfx 0xc0 2, 2); (mkpfx 0xe0 3, 4)] /\
   snd (t_retain nat f m)
     = [(mkpfx 0x20 3, 5); (mkpfx 0x47 2, 3); (mkpfx 0xe0 3, 4); (mkpfx 0xc0 2, 2); (mkpfx 0 0, 0)] /\
-  snd (fst (t_retain nat f m)) = false.
+  snd (fst (t_retain nat f m)) = false /\
+  (* a stateful closure: rejects exactly its 2nd and 3rd invocation; panics at the 5th *)
+  entries (root (fst (fst (t_retain nat (fun n _ _ => Some (negb (Nat.eqb n 1 || Nat.eqb n 2))) m))))
+    = [(mkpfx 0 0, 0); (mkpfx 0x20 3, 5); (mkpfx 0xc0 2, 2)] /\
+  snd (fst (t_retain nat (fun n _ x => if Nat.eqb n 4 then None else Some (Nat.even x)) m)) = true /\
+  entries (root (fst (fst (t_retain nat (fun n _ x => if Nat.eqb n 4 then None else Some (Nat.even x)) m))))
+    = [(mkpfx 0 0, 0); (mkpfx 0xc0 2, 2); (mkpfx 0xe0 3, 4)].
 Proof. vm_compute. repeat split; reflexivity. Qed.
 
 Print Assumptions C10_wfm_under.
@@ -246,5 +304,7 @@ Print Assumptions C10_remove_children_removes_children.
 Print Assumptions C10_remove_children_zero.
 Print Assumptions C10_retain.
 Print Assumptions C10_retain_any_outcome.
+Print Assumptions C10_retain_all_predicates.
+Print Assumptions C10_retain_total.
 Print Assumptions C10_retain_wf.
 Print Assumptions C10_reachable.
